@@ -6,7 +6,7 @@ import z3
 
 from vlib import evidence, leafrt, runner, specmodel, xh
 
-PREAMBLE = ["from vlib import leafrt as R", "R.field_cases()", "R.annot_cases()"]
+PREAMBLE = ["from vlib import leafrt as R", "R.field_cases()", "R.annot_cases()", "from vlib import ctxlemmas as X", "X.value_cases()"]
 SPEC = specmodel.get()
 
 
@@ -97,6 +97,11 @@ def lemmas(tier):
         else:
             body = ["a = R.conv_accepts(%r, %s)" % (c.id, x), "m = %s in %r" % (x, vals), "return a[0] == m and (not m or a[1] == %s)" % x]
             out.append(xh.Lemma("fclosed_%s" % c.id, params, body, pre=pre, meta=dict(meta, what="closed enum property: accepted iff declared value")))
+    from vlib import ctxlemmas
+
+    for l in ctxlemmas.lemmas(tier, kinds=("enum_str", "enum_int"), removal=False):
+        l.meta["level"] = "parent"
+        out.append(l)
     return out
 
 
@@ -120,6 +125,10 @@ def check(tier):
         if r.verdict == "inconclusive":
             chk.inconc("%s: %s" % (site, r.message[:160]))
         elif r.verdict == "refuted":
+            from vlib import ctxlemmas
+
+            if ctxlemmas.replay(chk, l, r):
+                continue
             v = r.args.get("x", r.args.get("s"))
             if l.meta.get("near"):
                 v = leafrt.near(l.meta["case"])[r.args["k"]]
